@@ -27,7 +27,7 @@ CIRCUITS = {
     "H.CRX.S.T.IsingXX": lambda p: [qp.Hadamard(0), qp.CRX(p[0], [0, 1]), qp.S(0), qp.T(1), qp.IsingXX(p[1], [0, 1])],
     "Rot.SX.CZ": lambda p: [qp.Rot(p[0], p[1], p[2], 0), qp.SX(1), qp.CZ([1, 0])],
 }
-SCALES = [1, 2, 3, 1.5, 2.5, 3.4, 5]
+SCALES = [1, 2, 3, 1.5, 2.5, 3.4, 5, 2.9, 4.95, 1.1]  # incl. fractions whose partial fold rounds up to the whole circuit / down to nothing
 MEAS = lambda: [qp.expval(qp.PauliZ(0) @ qp.PauliX(1)), qp.probs(wires=[1])]
 
 
@@ -195,7 +195,14 @@ def add_noise_problem(cname):
         for w in op.wires:
             qp.PhaseFlip(0.1, w)
 
-    nm = qp.NoiseModel({c0: n0, c1: n1})
+    @qp.BooleanFn
+    def small_angle(op, **kw):  # a parameter-dependent condition: the verdict differs between gates of the same name on the same wires
+        return op.name == "RZ" and float(op.data[0]) < 1.0
+
+    n2 = qp.noise.partial_wires(qp.PhaseDamping, 0.3)
+    ops = ops + [qp.RZ(0.4, 0), qp.RZ(2.4, 0), qp.RZ(0.6, 0)]
+    tape = qp.tape.QuantumScript(ops, MEAS())
+    nm = qp.NoiseModel({c0: n0, c1: n1, small_angle: n2})
     (nt,), _ = qp.add_noise(tape, nm)
     got = [(o.name, tuple(o.wires)) for o in nt.operations]
     exp = []
@@ -205,6 +212,8 @@ def add_noise_problem(cname):
             exp += [("AmplitudeDamping", tuple(o.wires))] if len(o.wires) == 1 else [("AmplitudeDamping", tuple(o.wires))]
         if o.name in ("CNOT", "CZ") and set(o.wires) <= {0, 1}:
             exp += [("PhaseFlip", (w,)) for w in o.wires]
+        if o.name == "RZ" and float(o.data[0]) < 1.0:
+            exp += [("PhaseDamping", tuple(o.wires))]
     return None if got == exp else f"add_noise on {cname}: {got} != {exp}"
 
 
